@@ -55,7 +55,9 @@ class DiGraph(BaseGraph):
 
     def get_number_of_edges(self):
         """Get the number of edges in this graph"""
-        n_edges = sum(len(self.adj_map[n]) for n in self.nodes)
+        # Count the directed edges (adj_map is the undirected neighbour
+        # relation, it would count a one-way edge twice):
+        n_edges = sum(len(self.suc_map[n]) for n in self.nodes)
         return n_edges
 
     def successors(self, node):
